@@ -94,7 +94,26 @@ impl Sub for Spherical {
             static SLOT: std::cell::RefCell<Option<(u64, api::Sk)>> = const { std::cell::RefCell::new(None) };
         }
         let tag = mix(c.msg_base ^ n as u64 ^ crate::util::fnv(&seed));
-        let sigs: Vec<Result<Vec<f64>, Fail>> = par_map(count, 16, |j| {
+        // While the history is being signed, other threads of the process sign continuously with
+        // DIFFERENT keys (one of the other variant, one of the same variant): the distribution for
+        // a fixed key must not depend on what the rest of the process is signing.
+        let other_variant = api::key(if n == 512 { 1024 } else { 512 }, crate::util::seed32(mix(c.msg_base ^ 0x0715E)));
+        let stop_noise = std::sync::atomic::AtomicBool::new(false);
+        let noise_signatures = std::sync::atomic::AtomicU64::new(0);
+        let sigs: Vec<Result<Vec<f64>, Fail>> = std::thread::scope(|noise_scope| {
+            for t in 0..6 {
+                let (stop, made) = (&stop_noise, &noise_signatures);
+                let k = if t % 3 == 2 { &decoy } else { &other_variant };
+                noise_scope.spawn(move || {
+                    let mut i = 0u64;
+                    while !stop.load(std::sync::atomic::Ordering::Relaxed) {
+                        let _ = api::sign(&i.to_le_bytes(), &k.sk);
+                        i += 1;
+                    }
+                    made.fetch_add(i, std::sync::atomic::Ordering::Relaxed);
+                });
+            }
+            let out = par_map(count, 16, |j| {
             let msg = (c.msg_base ^ mix(j as u64)).to_le_bytes().to_vec();
             let sig = SLOT.with(|slot| {
                 let mut slot = slot.borrow_mut();
@@ -120,7 +139,11 @@ impl Sub for Spherical {
                 return Err(Fail::new("sphere:norm-bound", format!("an emitted signature has squared norm {} > floor(beta^2) = {}", norm, p.bound)));
             }
             Ok(s1.iter().chain(s2.iter()).map(|&x| x as f64).collect())
+            });
+            stop_noise.store(true, std::sync::atomic::Ordering::Relaxed);
+            out
         });
+        st.add("signatures_made_concurrently_by_other_keys", noise_signatures.load(std::sync::atomic::Ordering::Relaxed));
         let mut vecs: Vec<Vec<f64>> = Vec::with_capacity(count);
         for s in sigs {
             vecs.push(s?);
@@ -246,7 +269,7 @@ impl Sub for Spherical {
 }
 
 const META: Meta = Meta {
-    rule: "proptest (variant, key seed, message base); for each key N signatures over distinct messages are made with a seeded uniform byte stream (SignRng hook), by threads that first signed once with another key of the same variant held in the same memory slot (key rotation in place), and observed through their bytes only: s2 decoded, s1 = c - s2 h recomputed. Directions come from the secret basis: the 2n orthonormal Gram-Schmidt directions of [[g,-f],[G,-F]] (rows in the ffLDL tree's bit-reversed rotation order) and the 2n normalised basis rows. Invariants: every signature within floor(beta^2); pooled second moment = sigma^2 within z = 6.5; second moment per octile bin of ||b~_i|| = sigma^2 within z = 6.5; for every single direction the second moment within the exact chi-square_N interval and the mean within a normal interval, Bonferroni-corrected to 1e-9 per key. Non-trivial = a key with N >= 1000 signatures (counted once) plus its 8 direction bins; distinct by (variant, seed).",
+    rule: "proptest (variant, key seed, message base); for each key N signatures over distinct messages are made with a seeded uniform byte stream (SignRng hook), by threads that first signed once with another key of the same variant held in the same memory slot (key rotation in place), while six other threads sign continuously with two other keys (other variant, same variant), and observed through their bytes only: s2 decoded, s1 = c - s2 h recomputed. Directions come from the secret basis: the 2n orthonormal Gram-Schmidt directions of [[g,-f],[G,-F]] (rows in the ffLDL tree's bit-reversed rotation order) and the 2n normalised basis rows. Invariants: every signature within floor(beta^2); pooled second moment = sigma^2 within z = 6.5; second moment per octile bin of ||b~_i|| = sigma^2 within z = 6.5; for every single direction the second moment within the exact chi-square_N interval and the mean within a normal interval, Bonferroni-corrected to 1e-9 per key. Non-trivial = a key with N >= 1000 signatures (counted once) plus its 8 direction bins; distinct by (variant, seed).",
     assumptions: &[
         "the honest distribution differs from the ideal spherical Gaussian only by the norm rejection (about 1e-6) and the compression rejection (about 1e-7), far below the resolution of these tests, so tolerances are purely statistical",
         "design false-alarm probability per key: 2 * 8e-11 * 9 (pooled and bins) + 1e-9 (directions) < 3e-9; the run is a deterministic function of VERIF_SEED",
